@@ -42,17 +42,19 @@ type AssertResult struct {
 }
 
 type PathResult struct {
-	Status     string // ok | panic | budget | infeasible | inconclusive | unsupported
-	Detail     string
-	Asserts    []AssertResult
-	Covers     []string
-	Queries    int
-	Steps      int
-	Wraps      int
-	InexactUse int
-	Inputs     map[string]string
-	Notes      []string
-	Decisions  int
+	Status        string // ok | panic | budget | infeasible | inconclusive | unsupported
+	Detail        string
+	Asserts       []AssertResult
+	Covers        []string
+	Queries       int
+	Steps         int
+	Wraps         int
+	InexactUse    int
+	IfConv        int
+	IfConvAborted int
+	Inputs        map[string]string
+	Notes         []string
+	Decisions     int
 }
 
 type Exec struct {
@@ -85,6 +87,7 @@ type Exec struct {
 	verbose   bool
 	needModel bool
 	initing   *ssa.Package
+	spec      int // >0 while evaluating a branch arm speculatively (if-conversion)
 }
 
 type targetPanic struct {
@@ -109,6 +112,7 @@ type frame struct {
 	result    Value
 	panicking bool
 	panicVal  any
+	phisDone  bool
 }
 
 type deferred struct {
@@ -181,6 +185,9 @@ func (e *Exec) decide(c *Term) bool {
 	if c.IsConst() {
 		return c.BV_
 	}
+	if e.spec > 0 {
+		panic(specAbort{"symbolic branch inside a speculative region"})
+	}
 	if e.pos < len(e.prefix) {
 		d := e.prefix[e.pos]
 		e.pos++
@@ -242,6 +249,9 @@ func (e *Exec) concretize(t *Term) *big.Int {
 			return big.NewInt(1)
 		}
 		return big.NewInt(0)
+	}
+	if e.spec > 0 {
+		panic(specAbort{"concretisation inside a speculative region"})
 	}
 	for {
 		var v *big.Int
@@ -572,7 +582,6 @@ func (e *Exec) Run(entry *ssa.Function) (res PathResult, children []PathItem) {
 	return
 }
 
-
 func (e *Exec) callFn(caller *frame, fn *ssa.Function, args []Value, env []Value) Value {
 	if fn == nil {
 		panic(rtPanic("invalid memory address or nil pointer dereference (nil func)"))
@@ -648,7 +657,15 @@ func (e *Exec) runFrame(fr *frame) {
 		blk := fr.block
 		// phis
 		i := 0
-		if len(blk.Instrs) > 0 {
+		if fr.phisDone {
+			fr.phisDone = false
+			for i < len(blk.Instrs) {
+				if _, ok := blk.Instrs[i].(*ssa.Phi); !ok {
+					break
+				}
+				i++
+			}
+		} else if len(blk.Instrs) > 0 {
 			if _, ok := blk.Instrs[0].(*ssa.Phi); ok {
 				predIdx := -1
 				for k, p := range blk.Preds {
@@ -890,8 +907,14 @@ func (e *Exec) visit(fr *frame, instr ssa.Instruction) cont {
 		}
 		*p = copyVal(fr.get(instr.Val))
 	case *ssa.If:
+		cv := fr.get(instr.Cond)
+		if ct, isT := cv.(*Term); isT && !ct.IsConst() && e.spec == 0 && e.pos >= len(e.prefix)*0 {
+			if e.tryIfConvert(fr, ct) {
+				return kJump
+			}
+		}
 		succ := 1
-		if e.concBool(fr.get(instr.Cond)) {
+		if e.concBool(cv) {
 			succ = 0
 		}
 		fr.prevBlock, fr.block = fr.block, fr.block.Succs[succ]
